@@ -166,8 +166,15 @@ def compare(model_res, impl, fmt="tabs", ncols=None):
                     ka = [x if isinstance(x, bytes) else x.encode() for x in a[pos:pos + run]]
                     kb = [x if isinstance(x, bytes) else x.encode() for x in b[pos:pos + run]]
                     pos += run
+                    # identical rows pair off first; what is left may pair up to float rendering
+                    rest = []
                     for x in ka:
-                        hit = next((j for j, y in enumerate(kb) if (x == y or (model_res["inexact"] and approx_equal(x, y)))), None)
+                        if x in kb:
+                            kb.remove(x)
+                        else:
+                            rest.append(x)
+                    for x in rest:
+                        hit = next((j for j, y in enumerate(kb) if model_res["inexact"] and approx_equal(x, y)), None)
                         if hit is None:
                             ok = False
                             break
@@ -177,6 +184,9 @@ def compare(model_res, impl, fmt="tabs", ncols=None):
         elif model_res["inexact"]:
             ok = approx_equal(mo, io)
         if not ok:
+            if os.environ.get("VERIF_DEBUG_DUMP"):
+                with open(os.environ["VERIF_DEBUG_DUMP"], "ab") as f:
+                    f.write(b"=== model (unordered=%r ties=%r inexact=%r)\n" % (model_res["unordered"], model_res["ties"], model_res["inexact"]) + mo + b"\n=== impl\n" + io + b"\n")
             return "stdout differs"
     # stderr: sources named
     errs = model_res["errs"]
